@@ -224,6 +224,10 @@ func agreeObligations(runs []emitRun) (obls []emitObl, skipped int) {
 		if r.err != "" || len(r.paths) == 0 {
 			continue
 		}
+		if r.cell.Kind == "empty" {
+			skipped++ // FieldMap of the symbolic cell still holds the field under test; not the model of any DSL text
+			continue
+		}
 		if r.cell.Kind == "length" {
 			skipped++ // the symbolic cell's target field is not a field of the packet; no DSL text builds that model
 			continue
